@@ -374,6 +374,9 @@ added against unbounded allocation) panics instead of returning the bones. -/
 theorem c16_skeleton_length_guard_witness :
     Spec.HavokTag.wf datalessFile = true ∧ Spec.HavokTag.usesUnimplemented [] datalessFile = false ∧
     Spec.HavokTag.hasDatalessStructArray datalessFile = true ∧
+    Spec.HavokTag.itemTails ⟨0xFFFF, 1⟩ Spec.HavokTag.initStrings [] datalessFile =
+      [(1, 139), (1, 131), (2, 122), (2, 118), (2, 100), (100, 2)] ∧
+    Spec.HavokTag.guardTrips ⟨0xFFFF, 1⟩ datalessFile = true ∧
     (Spec.HavokTag.bonesOf datalessFile).map (·.map (·.name)) =
       some [[110, 95, 114, 111, 111, 116], [110, 95, 104, 97, 114, 97]] ∧
     Sklb.fromExisting (Spec.Sklb.encode ⟨Spec.Sklb.vOld, 0, 0, 101, 0, 0, 0, []⟩
